@@ -119,13 +119,9 @@ impl<T: ?Sized> RwLock<T> {
                 .compare_exchange(0, 1, Ordering::SeqCst, Ordering::SeqCst)
             {
                 Ok(_) => Ok(()),
-                Err(_) => {
-                    if self.poison.get() {
-                        Err(TryLockError::Poisoned(PoisonError::new(())))
-                    } else {
-                        Err(TryLockError::WouldBlock)
-                    }
-                }
+                // a lost race is not an acquisition, poisoned or not: the poison
+                // state is reported by the guard constructors
+                Err(_) => Err(TryLockError::WouldBlock),
             }
         } else {
             Err(TryLockError::WouldBlock)
@@ -182,10 +178,10 @@ impl<T: ?Sized> RwLock<T> {
             }
         }
 
-        let g = RwLockReadGuard::new(self)?;
-        // finally we add rlock
+        // count the reader first: the guard inside a Poisoned error is a real one
+        // and decrements the count when dropped
         *r += 1;
-        Ok(g)
+        Ok(RwLockReadGuard::new(self)?)
     }
 
     fn read_unlock(&self) {
